@@ -238,16 +238,13 @@ def run(ctx):
         if jstats != tstats or (fstats and fstats != tstats):
             ctx.violation({"kind": "header_text_vs_json"}, "text and JSON headers disagree: %r vs %r" % (tstats, jstats), payload, found_input=True)
         if jstats != o:
-            only_red = all(jstats[k] == o[k] for k in o if not k.startswith("red"))
             sig = {"kind": "header_stats_differ_from_body"}
-            if only_red and has_links_in_group and not iso_roots and by_id and kind == "O" and jstats == m:
-                sig = {"kind": "redundant_counts_paths_not_subgroups"}
             ctx.violation(sig, "header statistics %r differ from what the body shows %r" % (jstats, o), dict(payload, header=jstats, body=o),
                           found_input=True)
         if jstats != m:
             ctx.violation({"kind": "model_stats_differ"}, "implementation header %r != model stats_of(body) %r" % (jstats, m),
                           dict(payload, header=jstats, model=m, correspondence="ReportModel.stats_of vs write_report"),
-                          found_input=(jstats != o and not (has_links_in_group and not iso_roots)))
+                          found_input=(jstats != o))
         if not fix:
             # direct oracle: sizes non-increasing
             lens = [g["len"] for g in jgroups]
